@@ -122,6 +122,7 @@ type advScenario struct {
 	WaitNS    int64      `json:"wait_ns,omitempty"`       // how long to wait for Run to return after the stop (default 30s)
 	NoStop    bool       `json:"no_stop,omitempty"`       // never cancel: Run must end on its own (fatal error scenarios)
 	StateDelayNS int64   `json:"state_delay_ns,omitempty"`
+	Extra     []advCfg   `json:"extra_interfaces,omitempty"` // further interfaces known to metrics / debug API (eth1, eth2, ...)
 }
 
 type advDelivered struct {
@@ -191,10 +192,16 @@ func vkMsg(e advEvent) ndp.Message {
 // bubble at every "scrape" event and once after the stop (used by C04/C17).
 func runAdvertiser(t *testing.T, sc advScenario, hook func(w *simWorld, a *Advertiser, ev *advEvent)) *advResult {
 	res := &advResult{Extra: map[string]any{}}
+	sc.Events = append([]advEvent(nil), sc.Events...) // never reorder the caller's slice
 	sort.SliceStable(sc.Events, func(i, j int) bool { return sc.Events[i].AtNS < sc.Events[j].AtNS })
 	res.Leaked, res.Panic = bubble(t, func() {
 		cfg := sc.Cfg.iface("eth0")
-		w := newSimWorld([]config.Interface{cfg})
+		all := []config.Interface{cfg}
+		for i, x := range sc.Extra {
+			all = append(all, x.iface(fmt.Sprintf("eth%d", i+1)))
+		}
+		w := newSimWorld(all)
+		w.ifis = all
 		res.W = w
 		w.fwd["eth0"] = sc.Fwd0
 		w.eventf("config: min=%v max=%v unicast_only=%v lifetime=%ds forwarding=%v write-rules=%+v dial=%v", time.Duration(sc.Cfg.MinNS), time.Duration(sc.Cfg.MaxNS), sc.Cfg.UnicastOnly, sc.Cfg.LifeS, sc.Fwd0, sc.Lat, sc.DialFail)
